@@ -89,7 +89,7 @@ theorem erased_blank (t : Term) (h : t.g.bg = none) : t.erased = blank := by
   simp [Term.erased, h, blank]
 
 /-- move to column 0 of `row`, print `cs` (at most a full row), clear to end of line unless the row is full -/
-theorem writeRow (t : Term) (row : Nat) (cs : List TCell) (hrow : row < t.h) (hw : 0 < t.w) (hlen : cs.length ≤ t.w) :
+theorem writeRow (t : Term) (row : Nat) (cs : List TCell) (hrow : row < t.h) (hlen : cs.length ≤ t.w) :
     RowStep t (exec t ([.cup row 0, .put cs {}] ++ (if cs.length < t.w then [TermOp.el0] else []))) row ∧
     Shows (exec t ([.cup row 0, .put cs {}] ++ (if cs.length < t.w then [TermOp.el0] else []))) row cs := by
   let t1 : Term := { t with r := row, c := 0, pw := false }
